@@ -393,8 +393,20 @@ def message_type_is(body, call, msg, value_local=None):
     if value_local is not None:
         lt = landing_types(body, value_local, st)
         return bool(lt) and all(mentions(t, msg) for t in lt)
-    root = T.access_path(body, call.args[0])[1]
-    return root is not None and 1 <= root <= body.argc and same_ty(body.locals[root], msg)
+    root = root_param(body, call.args[0])
+    return root is not None and same_ty(body.locals[root], msg)
+
+
+# another view / an unchanged copy of the receiver: v.as_slice() ≡ &v[..] ≡ &*v ≡ v.as_ref() ≡ v.borrow(); s.as_str() ≡ &s[..]; x.clone() ≡ x.to_owned() ≡ v.to_vec()
+VIEW_OF = re.compile(r'::(as_ref|as_mut|deref|deref_mut|borrow|borrow_mut|as_slice|as_mut_slice|as_str|as_mut_str|as_bytes|clone|to_owned|to_vec|into_vec|into_boxed_slice|into|from)$|'
+                     r'as std::ops::Index(Mut)?<std::ops::RangeFull>>::index(_mut)?$')          # only the full range: &v[1..] is another value
+
+
+def root_param(body, operand):
+    """number of the parameter the operand is (a view / copy of), as a whole; None otherwise"""
+    if operand['k'] not in ('copy', 'move'): return None
+    l, proj = origin(body, operand['pl'])
+    return l if (1 <= l <= body.argc and not proj) else None
 
 
 def origin(body, pl, depth=40):
@@ -430,7 +442,7 @@ def origin(body, pl, depth=40):
                 if fam is None: break
                 src = [p for p in a0['pl']['p'] if p != '*']
                 l = a0['pl']['l']; proj = src + [{'dc': fam[0]}] + proj[1:]; continue
-            if T.TRANSPARENT_NOCLONE.search(T.strip_generics_tail(nm)) and want is None:
+            if (T.TRANSPARENT_NOCLONE.search(T.strip_generics_tail(nm)) or VIEW_OF.search(T.strip_generics_tail(nm)) or VIEW_OF.search(nm)) and want is None:
                 l = a0['pl']['l']; proj = [p for p in a0['pl']['p'] if p != '*'] + proj; continue
             ri = d.get('ri') or {}
             rfam = ty_family(ri.get('self') or '')
@@ -599,7 +611,7 @@ def kinds_rules(ctx):
             fl = flow(b)
             enc = [c for c in b.calls if c.item in ENCODERS and (c.trait or '').endswith('prost::Message')]
             # the encoded value is the message parameter itself and is encoded as its own type
-            good = [c for c in enc if T.access_path(b, c.args[0])[1] == 2 and same_ty(b.locals[2], msg) and message_type_is(b, c, msg)]
+            good = [c for c in enc if root_param(b, c.args[0]) == 2 and same_ty(b.locals[2], msg) and message_type_is(b, c, msg)]
             ctx.check(bool(good), R + '/%s/add/encodes-message' % kind, 'T-SIBLING', b.name, 'the stored blob is not the encoding of the given %s' % msg, b.site())
             al = [c for c in b.calls if c.item == 'add_layer' and 'OciArtifactBuilder' in c.name]
             okl = bool(al)
@@ -620,7 +632,7 @@ def kinds_rules(ctx):
             fd = [c for c in g.calls if c.item == 'from_descriptor' and ann in c.path]
             # the layer lookups whose result is decoded / whose descriptor gives the annotations
             used = [l for l in gl if any(l in ctx.S.slice_operand(g, c.args[0]).call_objs for c in dec + fd)]
-            ctx.check(bool(used) and all(T.access_path(g, l.args[1])[1] == 2 for l in used), R + '/%s/get/by-digest' % kind, 'T-CARRY', g.name, 'layer is not looked up by the given digest', g.site())
+            ctx.check(bool(used) and all(root_param(g, l.args[1]) == 2 for l in used), R + '/%s/get/by-digest' % kind, 'T-CARRY', g.name, 'layer is not looked up by the given digest', g.site())
             propagates(ctx, R + '/%s/get/unknown-digest-error' % kind, g, gl, 'get_layer')
             # media type guard: <descriptor of the looked-up layer>.media_type() == media_types::v1_K()
             okg = False
@@ -635,6 +647,11 @@ def kinds_rules(ctx):
             okd = False
             for d in dec:
                 from_layer = any(l in ctx.S.slice_operand(g, d.args[0]).call_objs for l in used)
+                # ... the whole blob: followed back through views and moves the decoder's input is the lookup's result itself,
+                # not the result of another call on it (`&blob[1..]`, `blob.trim_ascii()`); a path lost at a join is left to the slice
+                src = origin(g, d.args[0]['pl'])[0] if d.args[0]['k'] in ('copy', 'move') else None
+                sdefs = [x for x in g.defs_of(src) if not (x[0] == 'stmt' and x[2]['dst']['p'])] if src is not None else []
+                if len(sdefs) == 1 and sdefs[0][0] == 'call' and not any(l.bb == sdefs[0][1] for l in used): from_layer = False
                 returned = bool(pay) and all(d in ctx.S.slice_operand(g, p).call_objs for p in pay)
                 if from_layer and returned and message_type_is(g, d, msg, value_local=d.dst['l']) and g.locals[0].startswith('std::result::Result<(%s, ' % msg): okd = True
             ctx.check(okd, R + '/%s/get/decodes-message' % kind, 'T-SIBLING', g.name, 'the blob of the layer is not decoded as %s' % msg, g.site())
@@ -1084,7 +1101,7 @@ def annotation_rules(ctx, repo):
         if hb is not None:
             ctx.fn(hb)
             hp = value_path(ctx, hb, {'l': 0, 'p': []})
-            okh = hp[0] == [] and hp[1][0] == 'get' and 'annotations::' not in hp[1][1].name and len(hp[1][1].args) > 1 and T.access_path(hb, hp[1][1].args[1])[1] == 2
+            okh = hp[0] == [] and hp[1][0] == 'get' and 'annotations::' not in hp[1][1].name and len(hp[1][1].args) > 1 and root_param(hb, hp[1][1].args[1]) == 2
             ctx.check(okh, R + '/%s/get-helper' % ty, 'T-CARRY', hb.name, 'get(key) does not return the unchanged entry of the map under the given key (%s, %s)' % ([c.item for c in hp[0]], hp[1][0]), hb.site())
         # from_descriptor reads the descriptor's annotations
         fd = meths.get('from_descriptor')
